@@ -36,6 +36,8 @@ def key_fn(case, obs, verdict):
         return "phout-aggregator:small-queue:%s" % ("not-one-line-per-request" if lost else "line-fields")
     if f[0] == "engine":
         # the pool run through the real engine: lines lost / run not ending / lines of other requests
+        if obs.startswith("err=crash"):
+            return "engine-run:startup-%s:engine-crashes" % "+".join(w.split(":")[0] for w in f[2].split("+"))
         if obs.startswith("err=hang"):
             return "engine-run:startup-%s:run-does-not-end" % "+".join(w.split(":")[0] for w in f[2].split("+"))
         import re
